@@ -208,6 +208,14 @@ CLASSES = {
                                              "blocks": [_adv(r, 1, [0])[0]["blocks"][0] + "00"], "brothers": [[]]}),
     "adv_block_short_coinbase": lambda r: J({"command": "advanceBlockchain", "version": 5, "blocks": [
         enc.rlp_encode(enc.header_fields(r, 20)[:-1] + [b"\x01\x02"]).hex()], "brothers": [[]]}),
+    # a coinbase transaction field whose leading eight bytes (the count of bytes already hashed) are enormous, with
+    # enough bytes behind it to look like the real thing
+    "adv_block_cb_counter_huge": lambda r: J({"command": "advanceBlockchain", "version": 5, "blocks": [
+        enc.rlp_encode(enc.header_fields(r, 20)[:-1] + [r.choice([b"\xff" * 8, b"\x20" + bytes(7), b"\x7f" * 8])
+                                                         + bytes(r.getrandbits(8) for _ in range(r.choice([32, 64, 100])))]).hex()],
+        "brothers": [[]]}),
+    "adv_brother_cb_counter_huge": lambda r: J(_adv(r, 1, [0], brothers=[[
+        enc.rlp_encode(enc.header_fields(r, 19)[:-1] + [b"\xff" * 8 + bytes(r.getrandbits(8) for _ in range(72))]).hex()]])[0]),
     "adv_brothers_missing": lambda r: J({k: v for k, v in _adv(r)[0].items() if k != "brothers"}),
     "adv_brothers_len_mismatch": lambda r: J(_adv(r, 2, [0, 0], brothers=[[]])[0]),
     "adv_brother_not_header": lambda r: J(_adv(r, 1, [0], brothers=[["abcdef"]])[0]),
